@@ -385,7 +385,7 @@ func ChanKey(ch interface{}) uintptr {
 func Closed(ch interface{}) {
 	if x := vsched.X(); x != nil {
 		_, p := chanPtr(ch)
-		x.MarkClosed(p)
+		x.MarkClosed(p, ch)
 	}
 }
 
